@@ -6,13 +6,15 @@
    form [nf p] (SddWf.v): at every reachable general node at least two elements, no prime is the
    false pointer, subs pairwise distinct (compressed), not {(p,T),(q,F)} and not two literal primes
    (trimmed); at every binary node distinct children, regular high child, not a literal in
-   disguise.  The order of elements inside a node and the complement convention of the first
-   sub are not part of [nf]; the correspondence compares them structurally on every case. *)
-From Coq Require Import Bool NArith List Lia Arith.
+   disguise; the elements are in the order of sort_by_key(prime) under the derived Ord of SddPtr
+   (sdd_cmp, proved to be a total order in SddCmp.v) and the sub of the first element is regular
+   (the complement convention of unique_or).  So [wf_in] pins the unfolding completely, and
+   canonicity is Leibniz equality of unfoldings = pointer equality. *)
+From Coq Require Import Bool NArith List Lia Arith Permutation.
 Import ListNotations.
 From RsddV Require Import Base.Bdd Model.SddVtree Model.SddOps.
 From RsddV Require Import Proofs.SddBase Proofs.SddVtree Proofs.SddInv Proofs.SddLoops Proofs.SddNode
-  Proofs.SddAnd Proofs.SddCond Proofs.SddProg Proofs.SddWf Proofs.SddWfOps Proofs.SddWfAnd Proofs.SddWfProg Proofs.SddCanon.
+  Proofs.SddAnd Proofs.SddCond Proofs.SddProg Proofs.SddWf Proofs.SddWfOps Proofs.SddWfAnd Proofs.SddWfProg Proofs.SddCmp Proofs.SddCanon Proofs.SddCanon2.
 
 (* the apply of the compressing builder maps well-formed operands to a well-formed result *)
 Theorem C04_sdd_and_wf : forall t cache a b,
@@ -81,45 +83,107 @@ Proof. exact under_agree. Qed.
 Print Assumptions C04_confined.
 
 (* ---- canonicity ---- *)
-(* full statement (Darwiche 2011, Thm. 3, with complement edges; for equality of unfoldings the
-   element order and the complement convention of unique_or, which [nf] leaves open, have to be
-   added to [wf_in]): kept visible; proved here only in part *)
+(* Darwiche 2011, Thm. 3, with complement edges, for the normal form the code produces: two
+   well-formed SDDs of one vtree with the same denotation are the same unfolding, i.e. (unique
+   tables, C02) the same pointer *)
 Definition C04_sdd_canonical_full_statement : Prop :=
   forall t p q, NoDup (vleaves t) -> wf_in t 0 p -> wf_in t 0 q ->
   (forall a, sden p a = sden q a) -> p = q.
+Theorem C04_sdd_canonical : C04_sdd_canonical_full_statement.
+Proof.
+  intros t p q ND [Up Np] [Uq Nq] H. apply (canon_all t ND t 0 (occurs_refl t 0) p q Up Uq Np Nq H).
+Qed.
+Print Assumptions C04_sdd_canonical.
 
-(* part 1 (proved): the constant fragment.  A well-formed pointer that is not the constant pointer
-   denotes a non-constant function; so a well-formed SDD equivalent to true/false IS the constant
-   pointer (this is what makes the syntactic is_false / is_true tests of the apply complete). *)
-Theorem C04_sdd_canonical_partial_const : forall t p, NoDup (vleaves t) -> wf_in t 0 p ->
+(* the same inside any sub-vtree (this is the induction that was proved) *)
+Theorem C04_sdd_canonical_local : forall t u off p q, NoDup (vleaves t) -> occurs t 0 u off ->
+  under u off p -> under u off q -> nf p -> nf q -> (forall a, sden p a = sden q a) -> p = q.
+Proof. intros t u off p q ND Ho. apply (canon_all t ND u off Ho). Qed.
+Print Assumptions C04_sdd_canonical_local.
+
+(* the derived Ord of SddPtr, which decides the element order inside a node, is a total order *)
+Theorem C04_sdd_cmp_total_order :
+  (forall p q, sdd_cmp p q = Eq <-> p = q) /\
+  (forall p q, sdd_cmp q p = CompOpp (sdd_cmp p q)) /\
+  (forall p q r, sdd_cmp p q = Lt -> sdd_cmp q r = Lt -> sdd_cmp p r = Lt).
+Proof.
+  split; [|split].
+  - intros p q. split; [apply sdd_cmp_eq | intros ->; apply sdd_cmp_refl].
+  - exact sdd_cmp_opp.
+  - exact sdd_cmp_trans.
+Qed.
+Print Assumptions C04_sdd_cmp_total_order.
+
+(* a well-formed SDD equivalent to true/false is the constant pointer: what makes the syntactic
+   is_false / is_true tests of the apply complete *)
+Theorem C04_sdd_canonical_const : forall t p, NoDup (vleaves t) -> wf_in t 0 p ->
   ((forall a, sden p a = true) -> p = ST) /\ ((forall a, sden p a = false) -> p = SF).
 Proof.
-  intros t p ND [Hu Hn].
-  destruct (nf_sat t ND p t 0 (occurs_refl t 0) Hu Hn) as [S F]. split; intros H.
-  - destruct (sdd_eqb p ST) eqn:E; [apply sdd_eqb_eq; exact E|]. apply sdd_eqb_neq in E.
-    destruct (F E) as [a Ha]. rewrite H in Ha. discriminate.
-  - destruct (sdd_eqb p SF) eqn:E; [apply sdd_eqb_eq; exact E|]. apply sdd_eqb_neq in E.
-    destruct (S E) as [a Ha]. rewrite H in Ha. discriminate.
+  intros t p ND Hp. split; intros H.
+  - apply (C04_sdd_canonical t p ST ND Hp); [split; [constructor | exact I] | exact H].
+  - apply (C04_sdd_canonical t p SF ND Hp); [split; [constructor | exact I] | exact H].
 Qed.
-Print Assumptions C04_sdd_canonical_partial_const.
+Print Assumptions C04_sdd_canonical_const.
 
-(* part 2 (proved): the inductive step of the canonicity theorem -- uniqueness of compressed
-   partitions.  At one vtree node (VNode l r), two element lists with partitioned satisfiable
-   primes below l, pairwise distinct subs below r and the same denotation have the same elements,
-   GIVEN canonicity of the children (semantic equality implies pointer equality below l and
-   below r).  What is missing for the full statement: the induction over the vtree that discharges
-   the two hypotheses, the case of operands normalised for different vtree nodes, and the element
-   order / complement convention. *)
-Theorem C04_sdd_canonical_partial_partition : forall t l r off X Y,
-  NoDup (vleaves t) -> occurs t 0 (VNode l r) off ->
-  (forall p q, under l off p -> under l off q -> (forall a, sden p a = sden q a) -> p = q) ->
-  (forall p q, under r (S (off + vsize l)) p -> under r (S (off + vsize l)) q -> (forall a, sden p a = sden q a) -> p = q) ->
-  okl (under l off) (under r (S (off + vsize l))) X -> okl (under l off) (under r (S (off + vsize l))) Y ->
-  part X -> part Y -> NoDup (map snd X) -> NoDup (map snd Y) -> satl X -> satl Y ->
-  (forall a, den_els X a = den_els Y a) ->
-  forall e, In e X <-> In e Y.
-Proof. intros t l r off X Y ND Ho CP CS. apply (partition_unique t ND l r off Ho CP CS). Qed.
-Print Assumptions C04_sdd_canonical_partial_partition.
+(* consequently, for ALL results of ALL programs of the compressing builder: pointer-equal iff the
+   same function (of the specification program) *)
+Lemma Forall2_nth {A B} (R : A -> B -> Prop) l1 l2 d1 d2 i :
+  Forall2 R l1 l2 -> i < length l1 -> R (nth i l1 d1) (nth i l2 d2).
+Proof. intros H. revert i. induction H; intros [|i] Hi; simpl in *; try lia; auto. apply IHForall2. lia. Qed.
+
+Theorem C04_eq_iff_equiv : forall t cache ops pool ic,
+  NoDup (vleaves t) -> cache_sound t cache -> cache_nf cache -> Forall (op_wf t) ops ->
+  run_m t true cache (S (vheight t)) ([], []) ops = Ok (pool, ic) ->
+  forall i j, i < length pool -> j < length pool ->
+  (nth i pool SF = nth j pool SF <->
+   forall a, nth i (spec_run [] ops) (fun _ => false) a = nth j (spec_run [] ops) (fun _ => false) a).
+Proof.
+  intros t cache ops pool ic ND CS CN Hw E i j Hi Hj.
+  destruct (C04_sdd_results_wf t cache ops ND CS CN Hw) as (pool' & ic' & E' & Hp).
+  rewrite E in E'. injection E' as <- <-.
+  destruct (Forall2_nth _ _ _ SF (fun _ => false) i Hp Hi) as [Wi Di].
+  destruct (Forall2_nth _ _ _ SF (fun _ => false) j Hp Hj) as [Wj Dj].
+  split.
+  - intros Eq a. rewrite <- Di, <- Dj, Eq. reflexivity.
+  - intros Eq. apply (C04_sdd_canonical t _ _ ND Wi Wj). intros a. rewrite Di, Dj. apply Eq.
+Qed.
+Print Assumptions C04_eq_iff_equiv.
+
+(* and the results do not depend on what the apply cache remembered: any two sound caches (the
+   empty one, the shipped one, a lossy one) lead to the same pool of pointers *)
+Theorem C04_cache_independent : forall t cache1 cache2 ops,
+  NoDup (vleaves t) -> cache_sound t cache1 -> cache_nf cache1 -> cache_sound t cache2 -> cache_nf cache2 ->
+  Forall (op_wf t) ops ->
+  exists pool ic1 ic2,
+    run_m t true cache1 (S (vheight t)) ([], []) ops = Ok (pool, ic1) /\
+    run_m t true cache2 (S (vheight t)) ([], []) ops = Ok (pool, ic2).
+Proof.
+  intros t cache1 cache2 ops ND CS1 CN1 CS2 CN2 Hw.
+  destruct (C04_sdd_results_wf t cache1 ops ND CS1 CN1 Hw) as (pool1 & ic1 & E1 & H1).
+  destruct (C04_sdd_results_wf t cache2 ops ND CS2 CN2 Hw) as (pool2 & ic2 & E2 & H2).
+  assert (pool1 = pool2).
+  { clear E1 E2. revert pool2 H2. induction H1 as [|p f pool1 fs [Wp Dp] _ IH]; intros pool2 H2; inversion H2 as [|q ? pool2' ? [Wq Dq] H2']; subst; auto.
+    f_equal; [|apply IH; exact H2'].
+    apply (C04_sdd_canonical t p q ND Wp Wq). intros a. rewrite Dp, Dq. reflexivity. }
+  subst pool2. exists pool1, ic1, ic2. auto.
+Qed.
+Print Assumptions C04_cache_independent.
+
+(* the clause order that compile_cnf's sort happens to produce does not matter with compression
+   on: every permutation gives the same pointer *)
+Theorem C04_compile_cnf_order_independent : forall t cache (f s1 s2 : list (list (var * bool))),
+  NoDup (vleaves t) -> cache_sound t cache -> cache_nf cache ->
+  Permutation s1 f -> Permutation s2 f -> Forall (Forall (fun l : var * bool => In (fst l) (vleaves t))) f ->
+  exists r, compile_cnf_m t true cache (S (vheight t)) f s1 = Ok r /\
+            compile_cnf_m t true cache (S (vheight t)) f s2 = Ok r.
+Proof.
+  intros t cache f s1 s2 ND CS CN P1 P2 Hv.
+  destruct (compile_cnf_ok_w t ND cache CS CN (S (vheight t)) (Nat.lt_succ_diag_r _) f s1 P1 Hv) as (r1 & E1 & W1 & D1).
+  destruct (compile_cnf_ok_w t ND cache CS CN (S (vheight t)) (Nat.lt_succ_diag_r _) f s2 P2 Hv) as (r2 & E2 & W2 & D2).
+  assert (r1 = r2) by (apply (C04_sdd_canonical t r1 r2 ND W1 W2); intros a; rewrite D1, D2; reflexivity).
+  subst r2. exists r1. auto.
+Qed.
+Print Assumptions C04_compile_cnf_order_independent.
 
 (* non-vacuity: the model run of a program on a balanced vtree is well formed, and a hand-made
    uncompressed node is not *)
